@@ -347,6 +347,8 @@ def gen_grid_case(rng, cap):
     return {
         "kind": "grid", "n": n, "priors": [specs[k] for k in order], "comps": comps, "grid": passed,
         "cores": cores, "perm_seed": rng.randrange(1 << 30) if cores > 1 else None,
+        # the same GridSearch object was used before on a problem of another dimension (0 = fresh object)
+        "earlier_use": rng.choice([0, 0, 1, 2, 3]),
     }
 
 
@@ -409,6 +411,19 @@ def run_grid(ctx, cfg, case, label="gen"):
     FakePool.perm_seed = case.get("perm_seed")
     FakePool.last_order = None
     grid_search = af.SearchGridSearch(search=search, number_of_steps=n, number_of_cores=case["cores"])
+    if case.get("earlier_use"):
+        # what a grid search answers does not depend on what the same object was asked before
+        ctx.hit("grid:object-used-before")
+        try:
+            k = case["earlier_use"]
+            while k > 1 and n ** k > 2000:
+                k -= 1
+            if k == d:
+                k = k + 1 if n ** (k + 1) <= 2000 else max(1, k - 1)
+            warm_m = af.Collection(**{f"w{i}": af.UniformPrior(0.0, 1.0 + i) for i in range(k)})
+            list(grid_search.model_mappers(warm_m, [getattr(warm_m, f"w{i}") for i in range(k)]))
+        except Exception as e:  # noqa
+            ctx.hit("grid:earlier-use-raised:" + type(e).__name__)
     del CALLS[:]
     try:
         result = grid_search.fit(model=model, analysis=NullAnalysis(), grid_priors=grid_priors)
